@@ -45,6 +45,17 @@ pub enum Entry {
     /// (`abs_last`: timeout(d) then deadline(t); otherwise deadline(t') then
     /// timeout(d))
     BuilderOverride { abs_last: bool, nanos: u64 },
+    /// Does the deadline reach the algorithm through this wrapper at this
+    /// input size?  A group of sub-cases of one size bucket; among those where
+    /// the deadline observably matters for the bare algorithm (expired from
+    /// the first check on gives another stream than no deadline) the wrapper
+    /// must consult the clock in at least one.  Judging a group instead of
+    /// single cases leaves wrappers free to trim, shortcut or add checks.
+    PlumbingGroup {
+        wrapper: Wrapper,
+        bucket: u8,
+        seeds: Vec<u64>,
+    },
     /// one configured builder (`timeout(d)`) used for two diffs while virtual
     /// time jumps forward by more than `d` in between: the timeout is relative
     /// to each diff, so both must give the no-deadline result
@@ -54,7 +65,7 @@ pub enum Entry {
     /// reads: a deadline in the past (must equal simulated expiry at probe 0),
     /// a deadline an hour ahead (must equal no deadline), and timeouts too
     /// large for an `Instant` (must mean no deadline, not a panic).
-    RealClock { kind: RealKind },
+    RealClock { kinds: Vec<RealKind> },
     /// Work clock on unrelated inputs: virtual time is the number of element
     /// comparisons made, so time runs out *between* two deadline checks.  For
     /// inputs over disjoint alphabets the correct code does at most about one
@@ -63,6 +74,16 @@ pub enum Entry {
     WorkClock { budgets_permille: Vec<u32> },
     /// TextDiff::configure().timeout(d) under the cost-model clock
     CostTimeout { dur: DurKind, seed: u64, profile: u8 },
+}
+
+#[derive(Clone, Copy, Debug, Serialize, Deserialize, PartialEq)]
+pub enum Wrapper {
+    RawSlices,
+    Capture,
+    CaptureSlices,
+    BuilderDeadlineSlices,
+    BuilderDeadlineLines,
+    BuilderTimeoutSlices,
 }
 
 #[derive(Clone, Copy, Debug, Serialize, Deserialize, PartialEq)]
@@ -442,24 +463,6 @@ impl C07 {
                     detail: format!("never-expiring deadline: {}", m),
                 })?;
                 out.execs += 1;
-                if slices {
-                    // the slices shortcut must hand the deadline on: it checks
-                    // the clock whenever the plain entry point does
-                    let plain = raw_exec(seq, true, Sched::Never).map_err(|m| Fail {
-                        clause: "c07.panic",
-                        detail: m,
-                    })?;
-                    out.execs += 1;
-                    if plain.probes > 0 && dry.probes == 0 {
-                        return fail(
-                            "c07.raw_plumbing",
-                            format!(
-                                "diff_slices_deadline makes {} deadline checks where diff_deadline makes {}",
-                                dry.probes, plain.probes
-                            ),
-                        );
-                    }
-                }
                 let kmax = dry.probes;
                 out.gauge("max_probes_per_case", kmax);
                 for k in fault_points(kmax, case.cap, case.sample_seed, case.only_k) {
@@ -552,27 +555,14 @@ impl C07 {
                     clause: "c07.panic_no_deadline",
                     detail: m,
                 })?;
-                let alone = raw_exec(seq, true, Sched::Never).map_err(|m| Fail {
-                    clause: "c07.panic",
-                    detail: m,
-                })?;
                 let dry = capture_exec2(seq, slices, true, Sched::Never).map_err(|m| Fail {
                     clause: "c07.panic",
                     detail: m,
                 })?;
-                out.execs += 3;
+                out.execs += 2;
                 // the deadline reaches the algorithm: the capture function
                 // checks the clock whenever the bare algorithm does (more
                 // checks, or a different number of them, are the implementation's business)
-                if alone.probes > 0 && dry.probes == 0 {
-                    return fail(
-                        "c07.capture_plumbing",
-                        format!(
-                            "capture function makes {} deadline checks, the algorithm alone {}",
-                            dry.probes, alone.probes
-                        ),
-                    );
-                }
                 let kmax = dry.probes;
                 out.gauge("max_probes_per_case", kmax);
                 for k in fault_points(kmax, case.cap, case.sample_seed, case.only_k) {
@@ -662,10 +652,6 @@ impl C07 {
                         format!("{} probes, {} now reads without a deadline", none.probes, none.now_plus_calls),
                     );
                 }
-                let alone = direct_exec(&core, true, Sched::Never).map_err(|m| Fail {
-                    clause: "c07.panic",
-                    detail: m,
-                })?;
                 let dl_dry = match case.entry {
                     Entry::BuilderOverride { abs_last, nanos } => {
                         if abs_last {
@@ -684,15 +670,6 @@ impl C07 {
                     detail: m,
                 })?;
                 out.execs += 3;
-                if alone.probes > 0 && dry.probes == 0 {
-                    return fail(
-                        "c07.builder_plumbing",
-                        format!(
-                            "the configured builder makes {} deadline checks, capture_diff_deadline on the same tokens {}",
-                            dry.probes, alone.probes
-                        ),
-                    );
-                }
                 let kmax = dry.probes;
                 out.gauge("max_probes_per_case", kmax);
                 for k in fault_points(kmax, case.cap, case.sample_seed, case.only_k) {
@@ -856,6 +833,79 @@ impl C07 {
                     digest_calls(&mut dig, &run.calls);
                 }
             }
+            Entry::PlumbingGroup {
+                wrapper,
+                bucket,
+                seeds,
+            } => {
+                let mut matters = 0u32;
+                let mut probed = 0u32;
+                let mut witness = String::new();
+                for &sd in seeds {
+                    let mut r = Rng::new(sd);
+                    let size = match bucket {
+                        0 => Size::Small,
+                        1 => Size::Medium,
+                        _ => Size::Large,
+                    };
+                    let mut sub = gen_seq_case(&mut r, size, None);
+                    if *bucket == 1 {
+                        // keep the middle bucket between 41 and 100 tokens
+                        while sub.n().max(sub.m()) < 41 || sub.n().max(sub.m()) > 100 {
+                            sub = gen_seq_case(&mut r, size, None);
+                        }
+                    }
+                    let sub = core_case(&sub);
+                    let none = raw_exec(&sub, false, Sched::Never).map_err(|m| Fail {
+                        clause: "c07.panic_no_deadline",
+                        detail: m,
+                    })?;
+                    let expired = raw_exec(&sub, true, Sched::Indexed(0)).map_err(|m| Fail {
+                        clause: "c07.panic",
+                        detail: m,
+                    })?;
+                    out.execs += 2;
+                    if expired.probes == 0 || expired.calls == none.calls {
+                        continue;
+                    }
+                    matters += 1;
+                    let pan = |m: String| Fail {
+                        clause: "c07.panic",
+                        detail: m,
+                    };
+                    let probes = match wrapper {
+                        Wrapper::RawSlices => raw_exec2(&sub, true, true, Sched::Never).map_err(pan)?.probes,
+                        Wrapper::Capture => capture_exec2(&sub, false, true, Sched::Never).map_err(pan)?.probes,
+                        Wrapper::CaptureSlices => capture_exec2(&sub, true, true, Sched::Never).map_err(pan)?.probes,
+                        Wrapper::BuilderDeadlineSlices => builder_exec(&sub, false, Dl::Abs, Sched::Never).map_err(pan)?.probes,
+                        Wrapper::BuilderDeadlineLines => builder_exec(&sub, true, Dl::Abs, Sched::Never).map_err(pan)?.probes,
+                        Wrapper::BuilderTimeoutSlices => builder_exec(&sub, false, Dl::Rel(Duration::from_secs(1)), Sched::Never).map_err(pan)?.probes,
+                    };
+                    out.execs += 1;
+                    if probes > 0 {
+                        probed += 1;
+                    } else if witness.is_empty() {
+                        witness = format!("{:?} old={:?} new={:?}", sub.alg, sub.old, sub.new);
+                        witness.truncate(300);
+                    }
+                    dig.add_all(&[sd, probes]);
+                }
+                crate::engine::trace(|| format!("plumbing group {:?} bucket {}: deadline matters in {} of {} sub-cases, wrapper consulted the clock in {}", wrapper, bucket, matters, seeds.len(), probed));
+                out.count("plumbing_groups", 1);
+                if matters >= 4 && probed == 0 {
+                    return fail(
+                        match wrapper {
+                            Wrapper::RawSlices => "c07.raw_plumbing",
+                            Wrapper::Capture | Wrapper::CaptureSlices => "c07.capture_plumbing",
+                            _ => "c07.builder_plumbing",
+                        },
+                        format!(
+                            "{:?}, size bucket {}: in {} inputs the deadline changes what the bare algorithm returns, yet this entry point never consulted the clock in any of them (e.g. {})",
+                            wrapper, bucket, matters, witness
+                        ),
+                    );
+                }
+            }
             Entry::BuilderReuse { nanos, gap_ns } => {
                 let core = core_case(seq);
                 let none = builder_exec(&core, false, Dl::None, Sched::Never).map_err(|m| Fail {
@@ -901,13 +951,18 @@ impl C07 {
                 digest_ops(&mut dig, &b);
                 dig.add(run.clock_dig);
             }
-            Entry::RealClock { kind } => {
+            Entry::RealClock { kinds } => {
+              // a sequence of calls on one thread (state carried from one call
+              // to the next inside the time code would show up here)
+              for kind in kinds {
                 let core = core_case(seq);
                 let none = builder_exec(&core, false, Dl::None, Sched::Never).map_err(|m| Fail {
                     clause: "c07.panic_no_deadline",
                     detail: m,
                 })?;
-                let expired = direct_exec(&core, true, Sched::Indexed(0)).map_err(|m| Fail {
+                // the same entry point under the simulated clock, expired from
+                // the first check on
+                let expired = builder_exec(&core, false, Dl::Abs, Sched::Indexed(0)).map_err(|m| Fail {
                     clause: "c07.panic",
                     detail: m,
                 })?;
@@ -966,6 +1021,7 @@ impl C07 {
                     out.faults[F_EXP0] += 1;
                 }
                 digest_ops(&mut dig, &real);
+              }
             }
             Entry::CostTimeout { dur, seed, profile } => {
                 let core = core_case(seq);
@@ -1106,10 +1162,11 @@ impl Prop for C07 {
     }
     fn gen(&self, rng: &mut Rng, tier: Tier, _idx: u64) -> Case {
         let size = match tier {
-            Tier::Quick => match rng.weighted(&[70, 24, 6]) {
+            Tier::Quick => match rng.weighted(&[700, 240, 57, 3]) {
                 0 => Size::Small,
                 1 => Size::Medium,
-                _ => Size::Large,
+                2 => Size::Large,
+                _ => Size::Huge(2600),
             },
             Tier::Thorough => match rng.weighted(&[55, 30, 12, 3]) {
                 0 => Size::Small,
@@ -1118,9 +1175,12 @@ impl Prop for C07 {
                 _ => Size::Huge(2000),
             },
         };
-        let seq = gen_seq_case(rng, size, None);
-        let mut seq = seq;
-        let entry_pick = rng.weighted(&[50, 20, 10, 8, 10, 4, 5, 5, 4, 6, 3]);
+        let mut seq = gen_seq_case(rng, size, None);
+        if tier == Tier::Quick && matches!(size, Size::Huge(_)) && seq.alg == Alg::Lcs {
+            // the quadratic table of LCS at this size belongs to the thorough tier
+            seq.alg = Alg::Myers;
+        }
+        let entry_pick = rng.weighted(&[50, 20, 10, 8, 10, 4, 5, 5, 4, 6, 3, 4]);
         if entry_pick == 9 {
             // unrelated inputs, plain lookups, ordinary hasher
             let (lo, hi) = match tier {
@@ -1140,6 +1200,18 @@ impl Prop for C07 {
         let entry = match entry_pick {
             0 => Entry::Raw,
             1 => Entry::Capture,
+            11 => Entry::PlumbingGroup {
+                wrapper: *rng.pick(&[
+                    Wrapper::RawSlices,
+                    Wrapper::Capture,
+                    Wrapper::CaptureSlices,
+                    Wrapper::BuilderDeadlineSlices,
+                    Wrapper::BuilderDeadlineLines,
+                    Wrapper::BuilderTimeoutSlices,
+                ]),
+                bucket: rng.below(3) as u8,
+                seeds: (0..14).map(|_| rng.next()).collect(),
+            },
             10 => Entry::BuilderReuse {
                 // a diff of these sizes makes < 20 000 probes of < 50 virtual
                 // ns each: one virtual second cannot run out inside one diff
@@ -1150,12 +1222,18 @@ impl Prop for C07 {
                 budgets_permille: (0..6).map(|_| rng.below(1000) as u32).collect(),
             },
             8 => Entry::RealClock {
-                kind: *rng.pick(&[
-                    RealKind::Past,
-                    RealKind::FarFuture,
-                    RealKind::TimeoutMax,
-                    RealKind::TimeoutHugeSecs,
-                ]),
+                kinds: {
+                    let mut ks = vec![
+                        RealKind::Past,
+                        RealKind::FarFuture,
+                        RealKind::TimeoutMax,
+                        RealKind::TimeoutHugeSecs,
+                        RealKind::Past,
+                        RealKind::FarFuture,
+                    ];
+                    rng.shuffle(&mut ks);
+                    ks
+                },
             },
             6 => Entry::RawSlices,
             7 => Entry::CaptureSlices,
@@ -1191,6 +1269,7 @@ impl Prop for C07 {
         };
         let cap = match (tier, size) {
             (Tier::Quick, Size::Small) | (Tier::Quick, Size::Medium) => 256,
+            (Tier::Quick, Size::Huge(_)) => 5,
             (Tier::Quick, _) => 24,
             (Tier::Thorough, Size::Huge(_)) => 12,
             (Tier::Thorough, Size::Large) => 96,
@@ -1294,6 +1373,7 @@ impl Prop for C07 {
             ("builder_over_100_tokens_with_expiry", c("builder_over_100_tokens_with_expiry")),
             ("timeout_overflow_no_deadline", agg.faults[F_OVERFLOW]),
             ("builder_both_setters", c("builder_both_setters")),
+            ("plumbing_groups", c("plumbing_groups")),
             ("real_clock_passthrough", c("real_clock_passthrough")),
             ("expiry_between_two_checks", agg.faults[F_WORK_EXPIRED]),
             ("builder_reused_across_time_jump", c("builder_reused_across_time_jump")),
